@@ -45,6 +45,9 @@ type c13Scenario struct {
 	// CBMember: Couchbase heart-beat membership (real, on the simulated node; only with Mitigate = real client): its
 	// heart-beat and monitor loops are background activity that must stop
 	CBMember bool `json:"cb_member,omitempty"`
+	// EndInClose: while Close() is closing the streams, the server ends another vBucket's stream on its own with this
+	// cause (state | slow | backfill | disconnected | socket); only with the interface-level client, current servers
+	EndInClose string `json:"end_in_close,omitempty"`
 }
 
 type c13Result struct {
@@ -61,6 +64,7 @@ type c13Result struct {
 	WritesAfter    int               `json:"writes_after"`   // per-vBucket store writes in the quiet window
 	PingsAfter     int               `json:"pings_after"`
 	OpensAfter     int               `json:"opens_after"`
+	OpensInClose   int               `json:"opens_in_close"` // stream requests between the call of Close() and its completion
 	ObservesAfter  int               `json:"observes_after"`
 	Leftover       []string          `json:"leftover"`         // library frames of goroutines alive after the quiet window
 	MemberOpsAfter int               `json:"member_ops_after"` // KV requests on membership documents in the quiet window
@@ -213,7 +217,27 @@ func c13Child(raw json.RawMessage) any {
 		}
 	}
 	slow := time.Duration(sc.SlowMs) * time.Millisecond
+	opensAtClose := -1
 	closeNow := func() {
+		cl.mu.Lock()
+		opensAtClose = len(cl.opens)
+		cl.mu.Unlock()
+		if sc.EndInClose != "" && client == couchbase.Client(cl) && sc.NVb >= 2 && !sc.OldServer {
+			var once sync.Once
+			cl.mu.Lock()
+			cl.onClose = func(vb uint16) {
+				once.Do(func() {
+					other := uint16((int(vb) + 1) % sc.NVb)
+					if sc.State == "gate_blocked" && other == 0 {
+						other = uint16((int(vb) + 2) % sc.NVb) // vBucket 0's connection goroutine is the one parked in the gate
+					}
+					if o := cl.observer(other); o != nil && other != vb {
+						o.End(models.DcpStreamEnd{VbID: other}, endCauses[sc.EndInClose])
+					}
+				})
+			}
+			cl.mu.Unlock()
+		}
 		res.StreamWasOpen = sc.State != "rebalance_closed" && sc.State != "rebalance_delay" && sc.State != "rebalance_reopen"
 		if lb == nil {
 			cl.mu.Lock()
@@ -356,6 +380,11 @@ func c13Child(raw json.RawMessage) any {
 	for vb, t := range fm.snapshot() {
 		res.Durable[fmt.Sprint(vb)] = t.Seq
 	}
+	if opensAtClose >= 0 {
+		cl.mu.Lock()
+		res.OpensInClose = len(cl.opens) - opensAtClose
+		cl.mu.Unlock()
+	}
 	// after Start() returned: nothing may reach the consumer any more
 	before := cons.count()
 	for v := 0; v < sc.NVb; v++ {
@@ -484,6 +513,9 @@ func c13Exec(sc c13Scenario) string {
 	if res.PingsAfter != 0 {
 		return fmt.Sprintf("%d pings in the quiet window after shutdown (health check still running)", res.PingsAfter)
 	}
+	if res.OpensInClose != 0 && !strings.HasPrefix(sc.State, "rebalance_") {
+		return fmt.Sprintf("%d vBucket stream(s) were requested after Close() had been invoked (end_in_close=%q): a stream the shutdown does not know of stays open", res.OpensInClose, sc.EndInClose)
+	}
 	if res.OpensAfter != 0 {
 		return fmt.Sprintf("%d stream requests in the quiet window after shutdown (a pending rebalance reopened the stream)", res.OpensAfter)
 	}
@@ -522,6 +554,9 @@ func c13Gen(rt *rapid.T) c13Scenario {
 		sc.Mitigate = true
 	}
 	sc.OldServer = rapid.IntRange(0, 3).Draw(rt, "oldserver") == 0
+	if !sc.OldServer && sc.NVb >= 2 && (!sc.Mitigate || sc.State == "gate_blocked") && !strings.HasPrefix(sc.State, "rebalance_") && rapid.IntRange(0, 2).Draw(rt, "endinclose") == 0 {
+		sc.EndInClose = rapid.SampledFrom([]string{"state", "slow", "backfill", "disconnected", "socket"}).Draw(rt, "endcause")
+	}
 	sc.CBMember = sc.Mitigate && sc.State != "gate_blocked" && !strings.HasPrefix(sc.State, "rebalance_") && rapid.IntRange(0, 3).Draw(rt, "cbmember") > 0
 	if sc.State == "monitor_inflight" {
 		sc.CBMember = true
@@ -590,6 +625,9 @@ func TestC13_Shutdown(t *testing.T) {
 		}
 		if scs[i].CBMember {
 			labs = append(labs, "couchbase_membership")
+		}
+		if scs[i].EndInClose != "" {
+			labs = append(labs, "server_ends_stream_during_close")
 		}
 		if scs[i].OldServer && scs[i].NVb >= 2 {
 			labs = append(labs, "serial_close_server")
